@@ -107,7 +107,7 @@ package runs
 // ---- C10: the flow of a restored run is what the flow assets handed back without an error - or nothing: a definition
 // that is missing or no longer loads leaves the run without a flow (and is reported through the missing callback)
 //@ func ReadRun
-//@   havocs UnmarshalAndValidate, GetRun, NewResults, ReadEvent, lastWebhookSavedAsExtra, newLegacyExtra
+//@   havocs GetRun, NewResults, ReadEvent, lastWebhookSavedAsExtra, newLegacyExtra
 //@   requires !isnil(session)
 //@   callback missing(ref, err)
 //@   cb_assigns nothing
